@@ -5,6 +5,7 @@ The templates and look-up tables come from `Generated/Tables.lean` (extracted fr
 -/
 import Mahotas.Model.Basic
 import Mahotas.Generated.Tables
+import Mahotas.Model.Border
 namespace Mahotas.C15
 open Mahotas
 
@@ -161,6 +162,36 @@ def eulerPinned4 (b : Bin) (conn8 : Bool) : Int :=
     ((List.range b.cols).map fun (j : Nat) =>
       tbl.getD (quadCode b ((i : Int) - 1) ((j : Int) - 1)) 0).foldl (· + ·) 0).foldl (· + ·) 0
 
+/-! ### `euler(f, n, mode)` for the other border modes (round 4)
+
+Only `mode='constant'` pads a background row and column (and is what the statement speaks about). For every other mode
+`convolve(f, _powers, mode)` visits the `rows × cols` windows whose bottom-right pixel lies in the image and reads the row /
+column `-1` through the border mode (`fixOffset` of `Model/Border.lean`, the transliteration of `fix_offset`): `nearest` and
+`reflect` repeat row 0, `mirror` reads row 1 (row 0 for a single row), `wrap` reads the last row, `ignore` skips the element
+(weight 0, like background). -/
+
+/-- pixel `(y, x)` read through border mode `m` -/
+def getMode (b : Bin) (m : Mode) (y x : Int) : Bool :=
+  match fixOffset m y (b.rows : Int), fixOffset m x (b.cols : Int) with
+  | some yy, some xx => b.get yy xx
+  | _, _ => false
+
+/-- table index of the window whose top-left pixel is `(y, x)`, read through mode `m` -/
+def quadCodeMode (b : Bin) (m : Mode) (y x : Int) : Nat :=
+  ((Generated.eulerPowers.zipIdx.map fun (row, i) =>
+      (row.zipIdx.map fun (w, j) => if getMode b m (y + (i : Int)) (x + (j : Int)) then w else 0).foldl (· + ·) 0)).foldl (· + ·) 0
+
+/-- `euler(f, n, mode)` times 4 for every border mode: the default `constant` is `eulerModel4` (padded); the others sum the
+    look-up over the `rows × cols` windows ending inside the image, read through the mode -/
+def eulerMode4 (b : Bin) (conn8 : Bool) (m : Mode) : Int :=
+  match m with
+  | .constant => eulerModel4 b conn8
+  | m =>
+    let tbl := if conn8 then Generated.eulerLookup8 else Generated.eulerLookup4
+    ((List.range b.rows).map fun (i : Nat) =>
+      ((List.range b.cols).map fun (j : Nat) =>
+        tbl.getD (quadCodeMode b m ((i : Int) - 1) ((j : Int) - 1)) 0).foldl (· + ·) 0).foldl (· + ·) 0
+
 /-- Gray's bit-quad weights (times 4): +1 for one set pixel, −1 for three, ∓2 for a diagonal pair -/
 def grayQuad (conn8 : Bool) (a b c d : Bool) : Int :=
   let n := a.toNat + b.toNat + c.toNat + d.toNat
@@ -298,7 +329,10 @@ def handle (a : Args) : String :=
   | "euler" =>
     s!"m8={eulerModel4 b true} m4={eulerModel4 b false} p8={eulerPinned4 b true} p4={eulerPinned4 b false} " ++
     s!"den={Generated.eulerDen} spec8={eulerSpec b true} spec4={eulerSpec b false} " ++
-    s!"c8={components b true} c4={components b false} h4={holes b false} h8={holes b true}"
+    s!"c8={components b true} c4={components b false} h4={holes b false} h8={holes b true}" ++
+    (match Mode.ofCode (a.nat "mode") with
+     | some m => if a.has "mode" then s!" mm8={eulerMode4 b true m} mm4={eulerMode4 b false m}" else ""
+     | none => "")
   | "hull" =>
     let fg := foreground b
     let m := grahamModel fg
